@@ -228,12 +228,40 @@ class FnWiring:
         if isinstance(e, ast.Dict):
             return {("dict", tuple((k.value if isinstance(k, ast.Constant) else "?", frozenset(self.ev(v, env, guards))) for k, v in zip(e.keys, e.values)))}
         if isinstance(e, (ast.ListComp, ast.GeneratorExp, ast.SetComp)):
-            return {("opaque", S.unparse(e)[:60])}
+            # a comprehension reads as: the element expression over each(<iterable>), kept where <condition>; the loop variable is named by its
+            # provenance (an element of the iterable), so the form does not depend on its name
+            env2 = dict(env)
+            gens = []
+            ok = True
+            for g in e.generators:
+                it = frozenset(self.ev(g.iter, env2, guards))
+                if isinstance(g.target, ast.Name):
+                    env2[g.target.id] = {("elem", d) for d in it}
+                else:
+                    for n_ in ast.walk(g.target):
+                        if isinstance(n_, ast.Name):
+                            env2[n_.id] = {("elem", ("opaque", "unpacked element"))}
+                gens.append((it, tuple(self._cond(c, env2, guards) for c in g.ifs)))
+            elt = frozenset(self.ev(e.elt, env2, guards))
+            for k_ in ("$pend",):
+                if k_ in env2:
+                    env[k_] = env2[k_]
+            return {("comp", elt, tuple(gens))}
         if isinstance(e, ast.Slice):
             return {("opaque", "slice")}
         if isinstance(e, ast.Starred):
             return self.ev(e.value, env, guards)
         return {("opaque", S.unparse(e)[:60])}
+
+    def _cond(self, c, env, guards):
+        """Structural form of a filter condition of a comprehension (what is compared with what)."""
+        if isinstance(c, ast.UnaryOp) and isinstance(c.op, ast.Not):
+            return ("not", self._cond(c.operand, env, guards))
+        if isinstance(c, ast.BoolOp):
+            return (type(c.op).__name__,) + tuple(self._cond(v, env, guards) for v in c.values)
+        if isinstance(c, ast.Compare):
+            return ("cmp", tuple(type(o).__name__ for o in c.ops), frozenset(self.ev(c.left, env, guards)), tuple(frozenset(self.ev(x, env, guards)) for x in c.comparators))
+        return ("val", frozenset(self.ev(c, env, guards)))
 
     def call(self, e, env, guards):
         f = e.func
@@ -685,6 +713,18 @@ def simplify(d):
         return f"+{d[1]}({simplify(d[2])})"
     if k == "elem":
         return f"each({simplify(d[1])})"
+    if k == "comp":
+        def alt(ds):
+            return "|".join(sorted(simplify(x) for x in ds))
+        def cond(c):
+            if c[0] == "not":
+                return "not " + cond(c[1])
+            if c[0] in ("And", "Or"):
+                return "(" + f" {c[0].lower()} ".join(cond(x) for x in c[1:]) + ")"
+            if c[0] == "cmp":
+                return alt(c[2]) + "".join(f" {o} {alt(x)}" for o, x in zip(c[1], c[3]))
+            return alt(c[1])
+        return "comp(" + alt(d[1]) + "".join(" over " + alt(it) + "".join(" if " + cond(c) for c in cs) for it, cs in d[2]) + ")"
     if k == "ctorvar":
         return f"newvar({simplify(d[1])})#{d[2]}"
     if k == "mcall":
